@@ -131,7 +131,6 @@ func (r *rs) r6() {
 			}
 		}
 	}
-	c.Expect("R6.grammar", 10)
 }
 
 // ---------------------------------------------------------------------------
